@@ -134,8 +134,15 @@ def generate(streams: Streams, tier: str, index: int) -> dict:
     weights["query"] = max(weights["query"], 2)
     lay = gen.random_layout(rng)
     lay2 = gen.random_layout(rng)
-    if rng.random() < 0.7:
+    r2 = rng.random()
+    if r2 < 0.6:
         lay2 = dict(lay)
+    elif r2 < 0.75 and lay["cls"] in ("SphericalDroplet", "DiffuseDroplet"):
+        # the same kind of droplet in another space dimension (a collection that was emptied and
+        # is refilled, or is filled without a consistency request, may end up holding such members)
+        lay2 = {**lay, "dim": rng.choice([d for d in (1, 2, 3) if d != lay["dim"]])}
+        weights["query"] = max(weights["query"], 3)
+    p_lay2 = 0.45 if lay2["cls"] == lay["cls"] and lay2["dim"] != lay["dim"] else 0.2
     kinds = list(weights)
     w = [weights[k] for k in kinds]
     ops = []
@@ -150,7 +157,7 @@ def generate(streams: Streams, tier: str, index: int) -> dict:
         if k == "new_droplet":
             # "made": how the object came to be — constructor, pickled, or with its record held as
             # a 0-d structured array (what refine_droplet leaves behind in a refined droplet)
-            ops.append({"op": k, **gen.random_droplet(rng, lay if rng.random() < 0.8 else lay2),
+            ops.append({"op": k, **gen.random_droplet(rng, lay2 if rng.random() < p_lay2 else lay),
                         "made": rng.choice(["ctor", "ctor", "ctor", "refined", "pickled"])})
         elif k == "em_new":
             ops.append({"op": k, "src": [R(16) for _ in range(rng.randint(0, 5))],
@@ -1393,8 +1400,10 @@ def _query(M: Machine, step: int, op: dict):
                         and _lay(np.dtype(m.dtype)) == _lay(cells[0].rec):
                     bad(f"dim = {em.dim}, members have dimension {cells[0].dim}", "dim")
             elif kind in ("stats", "stats_novanished"):
-                if not (simple_vol and same_dim):
+                if not simple_vol:
                     return "not simple"
+                if not same_dim:
+                    cnt.inc("probe.stats_mixed_dimensions")
                 incl = kind == "stats"
                 st = em.get_size_statistics(incl_vanished=incl)
                 use = [c for c in cells if incl or c.radius > 0]
@@ -1417,14 +1426,19 @@ def _query(M: Machine, step: int, op: dict):
                     pass  # numpy mean of an empty list: nan with a warning; not asserted
                 cnt.inc("queries.stats")
             elif kind == "volume":
-                if not (simple_vol and same_dim):
+                if not simple_vol:
                     return "not simple"
+                if cells and m.dtype is not None and "position" in (np.dtype(m.dtype).names or ()) and \
+                        any(np.dtype(m.dtype)["position"].shape != (c.dim,) for c in cells):
+                    # members of another dimension than the declared layout (cleared and refilled,
+                    # or filled without a consistency request): each member counts with its own volume
+                    cnt.inc("probe.volume_members_of_undeclared_dimension")
                 want = math.fsum(cvol(c) for c in cells)
                 if not close(em.total_droplet_volume, want, 1e-11):
                     bad(f"total_droplet_volume {em.total_droplet_volume!r} != {want!r}", "volume")
                 cnt.inc("queries.volume")
             elif kind == "width":
-                if not (simple and same_dim):
+                if not simple:
                     return "not simple"
                 num = den = 0.0
                 terms_n, terms_d = [], []
